@@ -13,6 +13,12 @@ From Coq Require Import List NArith Bool Arith.
 From Atlas Require Import Base.Bytes.
 Import ListNotations.
 
+(** the change kinds a PostgreSQL ModifyColumn carries ([schema.ChangeKind] bits that reach
+    [alterColumn]; ChangeComment is taken out by modifyTable and becomes a COMMENT ON statement) *)
+Record ckinds := mkKinds { k_type : bool; k_null : bool; k_default : bool; k_attr : bool; k_generated : bool }.
+Definition clear_generated (k : ckinds) : ckinds :=   (* change.Change & ^schema.ChangeGenerated *)
+  mkKinds (k_type k) (k_null k) (k_default k) (k_attr k) false.
+
 Inductive akind :=
 | KOther          (* appends its inverse: Add/Drop/Modify/Rename Column, Add/Drop/Rename Index, Add/Drop/Modify
                      PrimaryKey, Add ForeignKey, ModifyCheck, ModifyAttr, MySQL DropCheck / DropForeignKey *)
@@ -20,7 +26,14 @@ Inductive akind :=
                      front by [sort.SliceStable] before the statement is built; appends its inverse *)
 | KCheckNamed     (* AddCheck with a name:  if reversible = reversible && true;  reversible { append DropCheck } *)
 | KCheckUnnamed   (* AddCheck without a name: reversible = reversible && false; nothing appended *)
-| KGenerated      (* PostgreSQL ModifyColumn with ChangeGenerated: reversible = false; the inverse is appended *)
+| KGenerated      (* PostgreSQL ModifyColumn with ChangeGenerated only: reversible = false; the inverse is appended *)
+| KModCol (k : ckinds)
+                  (* PostgreSQL ModifyColumn, per kind:
+                       if change.Change.Is(schema.ChangeGenerated) { reversible = false }
+                       reverse = append(reverse, &schema.ModifyColumn{From: To, To: From,
+                                                   Change: change.Change & ^schema.ChangeGenerated})
+                     and alterColumn writes one "ALTER COLUMN c <clause>" per kind, in the order of its
+                     switch: TYPE, NULL, DEFAULT, IDENTITY (ChangeAttr), DROP EXPRESSION (ChangeGenerated) *)
 | KAttr.          (* MySQL AddAttr / DropAttr: the attribute is written, nothing is appended and reversible = false
                      (no statement restores the previous, implicit value; fix C17-mysql-table-attr-reverse) *)
 
@@ -42,6 +55,9 @@ Fixpoint alter_loop (arms : list arm) (reverse : list arm) (reversible : bool) :
           if reversible' then alter_loop rest (reverse ++ [a]) reversible'
           else alter_loop rest reverse reversible'
       | KGenerated => alter_loop rest (reverse ++ [a]) false
+      | KModCol k =>
+          alter_loop rest (reverse ++ [mkArm (KModCol (clear_generated k)) (a_key a)])
+                     (if k_generated k then false else reversible)
       | KAttr => alter_loop rest reverse false
       end
   end.
@@ -64,7 +80,11 @@ Definition alterTable_postgres (arms : list arm) : option (list arm) := alter_re
 
 (** the declarative reading *)
 Definition arm_reversible (a : arm) : bool :=
-  match a_kind a with KCheckUnnamed | KGenerated | KAttr => false | _ => true end.
+  match a_kind a with
+  | KCheckUnnamed | KGenerated | KAttr => false
+  | KModCol k => negb (k_generated k)
+  | _ => true
+  end.
 Definition arm_has_inverse (a : arm) : bool :=
   match a_kind a with KAttr | KCheckUnnamed => false | _ => true end.
 
@@ -78,5 +98,29 @@ Fixpoint merge_adjacent (l : list bytes) : list bytes :=
       | [] => [x]
       end
   end.
+(** the clauses of an arm, as the harness names them: "<KIND>:<object>"; a [KModCol] arm has one
+    clause per kind ([a_key] is the column name), the other arms carry their clause key *)
+Definition C_TYPE : bytes := [67;79;76;85;77;78;45;84;89;80;69;58]%N.                         (* "COLUMN-TYPE:" *)
+Definition C_NULL : bytes := [67;79;76;85;77;78;45;78;85;76;76;58]%N.                         (* "COLUMN-NULL:" *)
+Definition C_DEFAULT : bytes := [67;79;76;85;77;78;45;68;69;70;65;85;76;84;58]%N.             (* "COLUMN-DEFAULT:" *)
+Definition C_IDENTITY : bytes := [67;79;76;85;77;78;45;73;68;69;78;84;73;84;89;58]%N.         (* "COLUMN-IDENTITY:" *)
+Definition C_EXPRESSION : bytes := [67;79;76;85;77;78;45;69;88;80;82;69;83;83;73;79;78;58]%N. (* "COLUMN-EXPRESSION:" *)
+Definition kind_clauses (k : ckinds) (col : bytes) : list bytes :=
+  (if k_type k then [C_TYPE ++ col] else []) ++ (if k_null k then [C_NULL ++ col] else []) ++
+  (if k_default k then [C_DEFAULT ++ col] else []) ++ (if k_attr k then [C_IDENTITY ++ col] else []) ++
+  (if k_generated k then [C_EXPRESSION ++ col] else []).
+Definition arm_clauses (a : arm) : list bytes :=
+  match a_kind a with
+  | KModCol k => kind_clauses k (a_key a)
+  | _ => [a_key a]
+  end.
 Definition reverse_objects (r : option (list arm)) : option (list bytes) :=
-  match r with Some l => Some (merge_adjacent (map a_key l)) | None => None end.
+  match r with Some l => Some (merge_adjacent (flat_map arm_clauses l)) | None => None end.
+
+(** the arm [alterTable] appends for an arm (its inverse): the same arm, a ModifyColumn without the
+    ChangeGenerated bit *)
+Definition inverse_arm (a : arm) : arm :=
+  match a_kind a with
+  | KModCol k => mkArm (KModCol (clear_generated k)) (a_key a)
+  | _ => a
+  end.
